@@ -2,7 +2,7 @@
    Statements only; proofs live in Proofs/TypesIntro.v.
    Model: Types/Introspection.v (introspect, ast_from_value); Spec: describe, coerce, matches. *)
 From Coq Require Import List NArith ZArith Bool Permutation String.
-From GQL Require Import Base.Bytes Types.Schema Types.Consistent Types.Introspection Proofs.TypesIntro.
+From GQL Require Import Base.Bytes Types.Schema Types.Consistent Types.Introspection Proofs.TypesIntro Proofs.TypesRoundtrip.
 Import ListNotations.
 Open Scope string_scope.
 Open Scope N_scope.
@@ -27,6 +27,117 @@ Print Assumptions C10_types_each_once_partial.
 Theorem C10_sorted_each_once : forall (A : Type) (key : A -> name) (l : list A), Permutation (sort_name key l) l.
 Proof. intros A key l. apply sort_name_perm. Qed.
 Print Assumptions C10_sorted_each_once.
+
+(* ===== C10_roundtrip, clause by clause.  V is the schema as built (any view with unique type
+   names; the hypotheses field_ok / closed_ref / Consistent are what C11_consistent gives for every
+   schema NewSchema returns), D its decorations, introspect V D what the resolvers report. ===== *)
+
+(* the set of types: exactly the types of the type map, each once *)
+Theorem C10_roundtrip_types : forall V D,
+  Permutation (map dt_name (d_types (introspect V D))) (map vt_name (v_types V))
+  /\ forall dt, In dt (d_types (introspect V D)) <-> exists vt, In vt (v_types V) /\ dt = introspect_type V D vt.
+Proof. intros V D. split; [apply introspect_type_names|intro dt; apply in_introspect]. Qed.
+Print Assumptions C10_roundtrip_types.
+
+(* kind, name, description of each type *)
+Theorem C10_roundtrip_kinds : forall V D vt,
+  dt_name (introspect_type V D vt) = vt_name vt
+  /\ dt_kind (introspect_type V D vt) = kind_name (vt_def vt)
+  /\ dt_desc (introspect_type V D vt) = match assocN (vt_id vt) (dc_types D) with Some d => td_desc d | None => [] end.
+Proof. exact type_kind. Qed.
+Print Assumptions C10_roundtrip_kinds.
+
+(* wrapped type references: the kind/name/ofType chain of any depth leads back to the reference *)
+Theorem C10_roundtrip_type_refs : forall ts, NoDup (map vt_name ts) -> forall t, closed_ref ts t ->
+  tref_of ts (dref_of ts t) = t.
+Proof. exact tref_roundtrip. Qed.
+Print Assumptions C10_roundtrip_type_refs.
+
+(* fields of objects and interfaces: exactly the schema's fields, each with its type reference,
+   its arguments (names and type references), its deprecation flag and reason; no fields elsewhere *)
+Theorem C10_roundtrip_fields : forall V D vt, NoDup (map vt_name (v_types V)) ->
+  (forall ifs fs, vt_def vt = VObject ifs fs -> dt_fields (introspect_type V D vt) = Some (reported_fields V D vt fs))
+  /\ (forall fs, vt_def vt = VInterface fs -> dt_fields (introspect_type V D vt) = Some (reported_fields V D vt fs))
+  /\ (vkind_object (vt_def vt) = false -> vkind_interface (vt_def vt) = false -> dt_fields (introspect_type V D vt) = None)
+  /\ forall fs, Permutation (map df_name (reported_fields V D vt fs)) (map vf_name fs)
+     /\ forall df, In df (reported_fields V D vt fs) ->
+        exists f, In f fs /\ df_name df = vf_name f
+          /\ df_type df = dref_of (v_types V) (vf_type f)
+          /\ df_isdep df = is_dep (field_dep D (vt_id vt) (vf_name f))
+          /\ df_reason df = dep_reason (field_dep D (vt_id vt) (vf_name f))
+          /\ (field_ok (v_types V) f = true ->
+                tref_of (v_types V) (df_type df) = vf_type f /\ Permutation (rebuild_args (v_types V) (df_args df)) (vf_args f)).
+Proof.
+  intros V D vt Hnd. destruct (fields_reported V D vt) as (H1 & H2 & H3).
+  split; [exact H1|]. split; [exact H2|]. split; [exact H3|].
+  intro fs. split; [apply reported_field_names|]. intros df Hin. exact (reported_field_spec V D Hnd vt fs df Hin).
+Qed.
+Print Assumptions C10_roundtrip_fields.
+
+(* fields(includeDeprecated: b) lists exactly the fields that are not deprecated, or all of them *)
+Theorem C10_roundtrip_include_deprecated : forall V D vt fs b n, NoDup (map vt_name (v_types V)) ->
+  (In n (map df_name (fields_resolver b (reported_fields V D vt fs))) <->
+   exists f, In f fs /\ vf_name f = n /\ (b = true \/ field_dep D (vt_id vt) n = [])).
+Proof. intros V D vt fs b n Hnd. exact (include_deprecated_fields V D Hnd vt fs b n). Qed.
+Print Assumptions C10_roundtrip_include_deprecated.
+
+(* interfaces of objects, by kind and name, each once; none elsewhere *)
+Theorem C10_roundtrip_interfaces : forall V D vt, NoDup (map vt_name (v_types V)) ->
+  (forall ifs fs, vt_def vt = VObject ifs fs ->
+     (forall i, In i ifs -> exists it, vfind (v_types V) i = Some it) ->
+     exists l, dt_interfaces (introspect_type V D vt) = Some l /\ Permutation (map (ref_id (v_types V)) l) ifs
+               /\ (NoDup ifs -> NoDup l))
+  /\ (vkind_object (vt_def vt) = false -> dt_interfaces (introspect_type V D vt) = None).
+Proof. intros V D vt Hnd. exact (interfaces_reported V D Hnd vt). Qed.
+Print Assumptions C10_roundtrip_interfaces.
+
+(* possibleTypes of interfaces and unions: the declared possible types, duplicate-free *)
+Theorem C10_roundtrip_possible_types : forall V D vt, Consistent V -> In vt (v_types V) ->
+  (vkind_interface (vt_def vt) = true \/ exists ms, vt_def vt = VUnion ms) ->
+  exists l, dt_possible (introspect_type V D vt) = Some l /\ NoDup l
+    /\ forall o, In o (map (ref_id (v_types V)) l) <-> possible (v_types V) (vt_id vt) o = true.
+Proof. intros V D vt HC. exact (possible_reported V D (cs_unique V HC) vt HC). Qed.
+Print Assumptions C10_roundtrip_possible_types.
+
+(* enum values with deprecation, and enumValues(includeDeprecated: b) *)
+Theorem C10_roundtrip_enum_values : forall V D vt vs, vt_def vt = VEnum vs ->
+  exists l, dt_enums (introspect_type V D vt) = Some l /\ Permutation (map de_name l) vs
+    /\ (forall e, In e l -> de_isdep e = is_dep (value_dep D (vt_id vt) (de_name e))
+                            /\ de_reason e = dep_reason (value_dep D (vt_id vt) (de_name e)))
+    /\ forall b n, In n (map de_name (enums_resolver b l)) <-> In n vs /\ (b = true \/ value_dep D (vt_id vt) n = []).
+Proof.
+  intros V D vt vs E. destruct (enums_reported V D vt vs E) as (l & El & Hp & Hd).
+  exists l. split; [exact El|]. split; [exact Hp|]. split; [exact Hd|].
+  intros b n. exact (include_deprecated_enums V D vt vs l b n E El).
+Qed.
+Print Assumptions C10_roundtrip_enum_values.
+
+(* input fields of input objects: names and type references *)
+Theorem C10_roundtrip_input_fields : forall V D vt fs, NoDup (map vt_name (v_types V)) ->
+  vt_def vt = VInput fs -> (forall f, In f fs -> closed_ref (v_types V) (snd f)) ->
+  exists l, dt_inputs (introspect_type V D vt) = Some l /\ Permutation (rebuild_args (v_types V) l) fs.
+Proof. intros V D vt fs Hnd. exact (inputs_reported V D Hnd vt fs). Qed.
+Print Assumptions C10_roundtrip_input_fields.
+
+(* directives: names (each once), descriptions, locations, arguments *)
+Theorem C10_roundtrip_directives : forall V D, NoDup (map vt_name (v_types V)) ->
+  Permutation (map ddr_name (d_directives (introspect V D))) (map dd_name (dc_dirs D))
+  /\ forall dd, In dd (d_directives (introspect V D)) ->
+       exists d, In d (dc_dirs D) /\ ddr_name dd = dd_name d /\ ddr_desc dd = dd_desc d /\ ddr_locs dd = dd_locs d
+         /\ ((forall a, In a (dd_args d) -> closed_ref (v_types V) (fst (snd a))) ->
+             Permutation (rebuild_args (v_types V) (ddr_args dd)) (map (fun a => (fst a, fst (snd a))) (dd_args d))).
+Proof. intros V D Hnd. exact (directives_reported V D Hnd). Qed.
+Print Assumptions C10_roundtrip_directives.
+
+(* root operation types *)
+Theorem C10_roundtrip_roots : forall V D,
+  (forall q vt, v_query V = Some q -> vfind (v_types V) q = Some vt -> d_query (introspect V D) = Some (vt_name vt))
+  /\ (forall q vt, v_mutation V = Some q -> vfind (v_types V) q = Some vt -> d_mutation (introspect V D) = Some (vt_name vt))
+  /\ (forall q vt, v_subscription V = Some q -> vfind (v_types V) q = Some vt -> d_subscription (introspect V D) = Some (vt_name vt))
+  /\ (v_mutation V = None -> d_mutation (introspect V D) = None)
+  /\ (v_subscription V = None -> d_subscription (introspect V D) = None).
+Proof. exact roots_reported. Qed.
+Print Assumptions C10_roundtrip_roots.
 
 (* ---------- non-vacuity ---------- *)
 Definition ex_types : list vtype :=
